@@ -47,15 +47,15 @@ def xr_add_defined(a, b):
 
 
 # ---- uninterpreted real functions ---------------------------------------------------------
-ln = z3.Function("ln", R, R)
-exp_ = z3.Function("exp", R, R)
-sqrt_ = z3.Function("sqrt", R, R)
-sin_ = z3.Function("sin", R, R)
-cos_ = z3.Function("cos", R, R)
+ln = z3.Function("u_ln", R, R)
+exp_ = z3.Function("u_exp", R, R)
+sqrt_ = z3.Function("u_sqrt", R, R)
+sin_ = z3.Function("u_sin", R, R)
+cos_ = z3.Function("u_cos", R, R)
 rpow = z3.Function("rpow", R, R, R)      # x ** y for real y (x > 0), or integer y
 pow2 = z3.Function("pow2", I, I)         # 2 ** k, k >= 0
-PI = z3.Real("pi")
-E_ = z3.Real("e")
+PI = z3.Real("k_pi")
+E_ = z3.Real("k_e")
 
 
 IMUL = z3.Function("imul", I, I, I)
@@ -106,9 +106,13 @@ def axioms_for(used):
         out.append(ln(1) == 0)
         fa([x], z3.Implies(x > 0, ln(1 / x) == -ln(x)), [ln(1 / x)])
         out.append(z3.And(ln(2) > z3.RealVal("0.6931"), ln(2) < z3.RealVal("0.6932")))
+        out.append(ln(E_) == 1)
+        out.append(ln(1 / E_) == -1)
+        out.append(z3.And(E_ > z3.RealVal("2.718"), E_ < z3.RealVal("2.719")))
     if "exp" in used:
         fa([x], exp_(x) > 0, [exp_(x)])
         fa([x, y], z3.Implies(x <= y, exp_(x) <= exp_(y)), [z3.MultiPattern(exp_(x), exp_(y))])
+        fa([x, y], z3.Implies(x < y, exp_(x) < exp_(y)), [z3.MultiPattern(exp_(x), exp_(y))])
         out.append(exp_(0) == 1)
         out.append(exp_(1) == E_)
     if "e" in used or "exp" in used:
@@ -116,6 +120,8 @@ def axioms_for(used):
     if "sin" in used:
         fa([x], z3.And(sin_(x) >= -1, sin_(x) <= 1), [sin_(x)])
         fa([k], sin_(z3.ToReal(k) * PI) == 0, [sin_(z3.ToReal(k) * PI)])
+        for kk in range(0, 13):
+            out.append(sin_(z3.RealVal(kk) * PI) == 0)
     if "cos" in used:
         fa([x], z3.And(cos_(x) >= -1, cos_(x) <= 1), [cos_(x)])
         out.append(cos_(0) == 1)
